@@ -397,6 +397,7 @@ def _obl_worker(args):
     return r
 
 
+RACE_MAX = int(os.environ.get("PYVC_RACE_MAX", "24"))
 SPLIT_HINT = ("ld_slice", "hq_slice", "parse_sequence", "fragment_parse", "fragment_data", "transform_data", "wavelet_transform", "picture_parse")
 COST_HINT = ("ld_slice", "hq_slice", "parse_sequence", "slice_band", "color_diff_slice_band", "fragment_parse", "fragment_data", "transform_data",
              "slice_quantizers", "quant_matrix", "S1_", "S3_")
@@ -456,6 +457,16 @@ def run_deductive(rep, modules, only=None):
             with ctxmp.Pool(max(1, min(jobs, len(pend)))) as pool:
                 for r in pool.imap_unordered(_obl_worker, pend, chunksize=4):
                     solved[r["id"]] = r
+        # phase 3: obligations the sequential portfolio left undecided are raced on further seeds with a longer budget,
+        # all cores in parallel (instantiation order is seed-sensitive; this keeps verdicts from flipping under load).
+        und = [p for p in pend if solved[p[0]]["status"] == "unknown"][:RACE_MAX]
+        if und:
+            races = [(oid, full, seed) for (oid, lin, full) in und for seed in solve.RACE_SEEDS]
+            with ctxmp.Pool(max(1, min(jobs, len(races)))) as pool:
+                for r in pool.imap_unordered(solve.race_job, races, chunksize=1):
+                    if r["status"] == "unsat" and solved[r["id"]]["status"] == "unknown":
+                        r["seconds"] += solved[r["id"]].get("seconds", 0.0)
+                        solved[r["id"]] = r
         for o in outs:
             if "crash" not in o:
                 for (oid, lin, full) in o["pending"]:
@@ -615,6 +626,8 @@ def finish(rep, ulist, level_if_all, coverage_extra, assumptions, checker_cmd, t
         "solver_seconds_total": round(solver_s, 3),
         "solver_seconds_max": round(max_s, 3),
         "vc_generation_seconds": round(getattr(rep, "gen_s", 0.0), 3),
+        "slowest_obligations": [{"obligation": o.id, "seconds": round(rep.results[o.id].get("seconds", 0.0), 2), "solver": rep.results[o.id].get("solver")}
+                                for (u, o) in sorted(obls, key=lambda uo: -rep.results[uo[1].id].get("seconds", 0.0))[:10]],
         "functions_under_contract": [
             {"function": u.contract.fq, "lines": list(u.src.lines) if u.src else None, "sha": u.src.sha if u.src else None,
              "obligations": len(u.obls), "error": u.error} for u in fn_units],
